@@ -73,10 +73,10 @@ def tier_list(rng):
     return pws
 
 
-def make_scorer(d):
+def make_scorer(d, limit=0):
     from lib_scorer.pcfg_password_scorer import PCFGPasswordScorer
     from lib_scorer.grammar_io import load_grammar
-    sc = PCFGPasswordScorer(limit=0)
+    sc = PCFGPasswordScorer(limit=limit)
     with contextlib.redirect_stdout(io.StringIO()), contextlib.redirect_stderr(io.StringIO()):
         if not load_grammar(sc, d):
             return None
@@ -113,6 +113,7 @@ def main(pid, tier, seed):
     tid = 0
     n_lists = 8 if tier == 'quick' else 250
     n_cands = 0
+    n_limit, n_limit_diff = [0], [0]
     from . import lists as _lists
     specials = sorted(_lists.special_lists().items())
     for k in range(n_lists + len(specials)):
@@ -173,6 +174,17 @@ def main(pid, tier, seed):
         order2 = list(cands)
         rng.shuffle(order2)
         second = {s: sc.parse(s) for s in order2}
+        # ... and by a second scorer with a classification cut-off (--limit) above 0: the cut-off decides the category, never
+        # the probability ("the score depends only on the string and the ruleset")
+        lim = rng.choice([1e-9, 1e-6, 1e-3, 0.05, 0.5])
+        sc2 = make_scorer(d, limit=lim)
+        if sc2 is not None:
+            for s in order2:
+                r3 = sc2.parse(s)
+                if r3[2] != first[s][2] and second[s][2] == first[s][2]:
+                    second[s] = r3
+                    n_limit_diff[0] += 1
+            n_limit[0] += len(order2)
         floats = set()
         for s in cands:
             floats.add(first[s][2])
@@ -227,7 +239,7 @@ def main(pid, tier, seed):
                    'guesser language table; non-trivial = non-zero score; candidates = training passwords, guesser output, one-edit '
                    'perturbations, unrelated strings, e-mail / website strings',
            'samples': [{'passwords': meta[s['tid']].get('passwords'), 'candidates': meta[s['tid']].get('cand_list', [])[:12]}],
-           'trainings': len(traces), 'trace_validation': st, 'binding_selftest': selftest, 'model_checking': mc, 'states': mc['states'], 'transitions': mc['transitions'], 'exhaustive': False,
+           'trainings': len(traces), 'rescored_with_a_cutoff_above_0': n_limit[0], 'of_which_differing': n_limit_diff[0], 'trace_validation': st, 'binding_selftest': selftest, 'model_checking': mc, 'states': mc['states'], 'transitions': mc['transitions'], 'exhaustive': False,
            'known_findings_reproduced': n_known, 'violation_histogram': verdict.histogram()}
     core.write_evidence(pid, tier, seed, 'model_checking', cov, time.time() - t0, violations=n_viol,
                         assumptions=['TLC compares ranks; floats clustered within relative 1e-9', 'e-mail / website detection recomputed with the detectors',
